@@ -357,8 +357,22 @@ fn cfg_json(driver: &str, simp: SimpFunc, split: bool, parallel: bool) -> Value 
 
 /// all configurations on one closed diagram
 pub fn judge_configs(st: &mut Stats, spec: &DiagSpec, only: Option<&Value>, with_parallel: bool) {
+    // the same diagram at three magnitudes: as it is, and with its global scalar times sqrt2^-80 (values around 1e-12:
+    // "small" must never be taken for "zero") and sqrt2^90
+    for scale in [0i32, -80, 90] {
+        if let Some(o) = only {
+            if o["scale"].as_i64().unwrap_or(0) as i32 != scale {
+                continue;
+            }
+        }
+        judge_configs_scaled(st, spec, only, with_parallel, scale);
+    }
+}
+
+fn judge_configs_scaled(st: &mut Stats, spec: &DiagSpec, only: Option<&Value>, with_parallel: bool, scale: i32) {
     st.inc("cases");
-    let g: Graph = spec.build();
+    let mut g: Graph = spec.build();
+    g.scalar_mut().mul_sqrt2_pow(scale);
     let Some(want) = want_scalar(&g) else {
         st.inc("skipped_unevaluable_input");
         return;
@@ -374,7 +388,10 @@ pub fn judge_configs(st: &mut Stats, spec: &DiagSpec, only: Option<&Value>, with
                     if parallel && !with_parallel {
                         continue;
                     }
-                    let cfg = cfg_json(driver, simp, split, parallel);
+                    let mut cfg = cfg_json(driver, simp, split, parallel);
+                    if scale != 0 {
+                        cfg["scale"] = json!(scale);
+                    }
                     if let Some(o) = only {
                         if *o != cfg {
                             continue;
@@ -384,7 +401,7 @@ pub fn judge_configs(st: &mut Stats, spec: &DiagSpec, only: Option<&Value>, with
                     script::begin(&[], usize::MAX);
                     let r = guarded(|| run_decomposer(&g, driver, simp, split, parallel));
                     let wit = || json!({"kind": "config", "spec": spec.to_json(), "config": cfg});
-                    let cls = format!("{}|{:?}|split={}|par={}", driver, simp, split, parallel);
+                    let cls = format!("{}|{:?}|split={}|par={}{}", driver, simp, split, parallel, if scale != 0 { format!("|scale={}", scale) } else { String::new() });
                     match r {
                         Err(p) => st.violation(Violation { sig: format!("decompose|panic|{}|{}", cls, p.rsplit(" @ ").next().unwrap_or("")), detail: p, witness: wit() }),
                         Ok(s) => match scalar_exact(&s) {
